@@ -3,12 +3,13 @@
 package main
 
 import (
-	"strings"
 	"errors"
 	"fmt"
 	"hash/fnv"
+	"math"
 	"runtime"
 	"sort"
+	"strings"
 	"sync"
 	"sync/atomic"
 	"time"
@@ -54,13 +55,13 @@ func (o c19Op) Operation() (interface{}, error) {
 }
 
 type c19ProcPlan struct {
-	Threads  int  `json:"threads"`
-	Buffer   int  `json:"buffer"`
-	Ops      int  `json:"operations"`
-	QueueCap int  `json:"queue_capacity"`
-	Procs    int  `json:"gomaxprocs"`
-	Barrier  bool `json:"park_exiting_workers_until_all_have_returned_their_token"`
-	PanicAt  int  `json:"operation_that_panics,omitempty"` // its worker turns the panic into that operation's error result and exits
+	Threads   int   `json:"threads"`
+	Buffer    int   `json:"buffer"`
+	Ops       int   `json:"operations"`
+	QueueCap  int   `json:"queue_capacity"`
+	Procs     int   `json:"gomaxprocs"`
+	Barrier   bool  `json:"park_exiting_workers_until_all_have_returned_their_token"`
+	PanicAt   int   `json:"operation_that_panics,omitempty"` // its worker turns the panic into that operation's error result and exits
 	PanicKind int   `json:"panic_value_kind,omitempty"`      // 0 string, 1 error, 2 runtime error, 3 struct
 	NilOps    []int `json:"operations_returning_nil_nil,omitempty"`
 	Batches   []int `json:"process_call_sizes,omitempty"` // how many operators each Process call submits (0 = an empty call)
@@ -263,6 +264,9 @@ func (m c19Mapper) Slice(i, j int) concurrent.Mapper {
 	return c19Mapper{m.lo + i, m.lo + j, m.rec}
 }
 func (m c19Mapper) Operation() (interface{}, error) {
+	if m.hi == m.lo { // no chunk of a non-empty input is empty; saying so ends a Map that would go on handing out empty chunks
+		return nil, fmt.Errorf("empty chunk [%d,%d)", m.lo, m.hi)
+	}
 	if f := m.rec.failAt; f >= m.lo && f < m.hi {
 		if m.rec.panics {
 			panic(fmt.Sprintf("chunk [%d,%d) blew up", m.lo, m.hi))
@@ -276,6 +280,10 @@ func c19Map(r *obs.Run) {
 	rng := r.Rng
 	n := []int{0, 1, 2, 7, 16, 100, 1000, rng.Intn(1001)}[rng.Intn(8)]
 	threads := 1 + rng.Intn(16)
+	if rng.Intn(10) == 0 { // "as many as you can": far more threads than there is work or processors
+		threads = []int{math.MaxInt, math.MaxInt - 1, math.MaxInt - 1000, 1 << 40, 1 << 31, 100000}[rng.Intn(6)]
+		r.Count("map_runs_with_a_huge_thread_count", 1)
+	}
 	maxChunk := []int{1, 2, 3, 10, 1000, 1 + rng.Intn(50)}[rng.Intn(6)]
 	rec := &c19Rec{failAt: -1}
 	if n > 0 && rng.Intn(4) == 0 { // one chunk fails (or panics): Map reports an error, and nothing panics outside the workers
